@@ -80,6 +80,41 @@ static Case cases[] = {
              return printf("expected F1 90 80 80, got %u units starting %02X\n", s->Length(), (unsigned char)s->First()[0]), 1;
          return 0;
      }},
+    // ---- C12 Value typestate
+    {"value_remove_by_string_key", [] {
+         Value<char> v = JSON::Parse("{\"abc\":1,\"d\":2}");
+         String<char> k{"abc"};
+         v.Remove(k);
+         const Value<char> *x = v.GetValue("abc", 3);
+         return (x == nullptr) ? 0 : (printf("key abc still present after Remove(String)\n"), 1);
+     }},
+    {"value_assign_kind_over_container", [] {
+         // leak + reinterpretation: an object re-tagged as Array without releasing it
+         Value<char> v = JSON::Parse("{\"abc\":1,\"d\":2}");
+         v = ValueType::Array;
+         v += 1;
+         return (v.Size() == 1) ? 0 : (printf("array after retag has size %u\n", v.Size()), 1);
+     }},
+    {"value_number_to_array_dirty_storage", [] {
+         alignas(16) unsigned char buf[sizeof(Value<char>)];
+         memset(buf, 0xAB, sizeof(buf));
+         Value<char> *v = new (buf) Value<char>(SizeT64{5});
+         (*v) += 1;
+         int r = (v->Size() == 1) ? 0 : 1;
+         v->~Value();
+         return r;
+     }},
+    {"value_merge_into_moved_from_scalar", [] {
+         alignas(16) unsigned char buf[sizeof(Value<char>)];
+         memset(buf, 0xAB, sizeof(buf));
+         Value<char> *a = new (buf) Value<char>(SizeT64{5});
+         Value<char> b{Memory::Move(*a)};   // a is Undefined now, payload bits remain
+         Value<char> arr = JSON::Parse("[1,2]");
+         a->Merge(arr);
+         int r = (a->Size() == 2) ? 0 : 1;
+         a->~Value();
+         return r;
+     }},
     // ---- C08
     {"stringify_control_char_escaped", [] {
          Value<char> v;
